@@ -142,6 +142,11 @@ func c19Flight(n int, answer string, prior string) {
 		wg.Add(1)
 		go func(i int) {
 			defer wg.Done()
+			defer func() { // a caller that panics (e.g. on a nil head handed over with a nil error) is an outcome, not a harness crash
+				if p := recover(); p != nil {
+					results[i] = "panic"
+				}
+			}()
 			h, err := run.s.Head(ctx)
 			if err != nil || h == nil {
 				results[i] = "err"
